@@ -25,7 +25,8 @@ prop(
     "(C10.ack-incomplete:forgotten-after-truncated-ack) and re-synchronises the model after it so the rest of the history stays checked. "
     "fast_retransmit has no production caller; it is driven per its documented contract in 3 of 4 history styles.",
     design_ref="DESIGN.md §3 C10",
-    legs=[dict(name="journals", crate="l1rec", sub="c10", shards={Q: 16, T: 16}, budget={Q: 1200, T: 50000}, timeout=3600)],
+    legs=[dict(name="journals", crate="l1rec", sub="c10", shards={Q: 16, T: 16}, budget={Q: 1200, T: 50000}, timeout=3600),
+          dict(name="miri", kind="miri", crate="l1rec", sub="c10", tiers=(T,), args=["--interp", "1"], budget={T: 4}, timeout=3600, mandatory=False)],
     floors={
         Q: {
             "ack_frames_requested": 100_000,
